@@ -26,6 +26,9 @@ TRUSTED = [
     "create_stog: parameter of the model, instantiated in the …_createStog theorems and in the driver by stogC06 (the C06 "
     "model, StogPerm proved in FV/Proofs/StogInst.lean); math.sqrt is a parameter (wire length)",
     "the process-wide tolerance Rectangle._area_epsilon is an explicit parameter εA of the model",
+    "duplicate keys (they exist only in YAML text): stream malformed-text runs the text model's parser "
+    "(FV/Model/YamlText.lean, driver op loadtext) + the tree reader against Netlist(text); float(literal) in the driver is "
+    "Lean's Float.ofScientific (observed bit-equal with CPython), exact decimal value on the Q stream",
     "theorems are over exact ordered fields; IEEE rounding is executed (F stream), never proved",
     "harness (Python) and compiled Lean driver: encoding of trees, canonicalisation, comparison; the document oracle "
     "(netlist_common.oracle) restates the definitions independently of both",
@@ -215,8 +218,55 @@ def _malformed_case(ctx: Ctx, base, eps, mode: str, cls: str, reqs, todo) -> Non
                                              "note": "overlap below the area tolerance in force (document-derived)"}, size)
 
 
+def dup_key_text(rng, text: str) -> str | None:
+    """a block-style YAML text with ONE mapping key written twice: a `key: scalar` line is repeated, or a whole nested
+    block (a module with its attributes) is repeated at the end of its parent."""
+    lines = text.split("\n")[:-1]
+    cands = [i for i, l in enumerate(lines) if ":" in l and not l.lstrip().startswith("-")]
+    if not cands:
+        return None
+    i = rng.choice(cands)
+    ind = len(lines[i]) - len(lines[i].lstrip(" "))
+    j = i + 1
+    while j < len(lines) and (len(lines[j]) - len(lines[j].lstrip(" ")) > ind or
+                              (lines[j].lstrip(" ").startswith("-") and len(lines[j]) - len(lines[j].lstrip(" ")) >= ind)):
+        j += 1
+    block = lines[i:j]
+    # end of the parent mapping: the next line indented less than the key
+    k = j
+    while k < len(lines) and len(lines[k]) - len(lines[k].lstrip(" ")) >= ind and not (
+            len(lines[k]) - len(lines[k].lstrip(" ")) == ind and lines[k].lstrip(" ").startswith("-")):
+        k += 1
+    pos = rng.choice([j, k])
+    return "\n".join(lines[:pos] + block + lines[pos:]) + "\n"
+
+
+def dup_key_case(ctx: Ctx, base, eps, mode: str, reqs, todo) -> None:
+    """duplicate keys exist only in the TEXT (a Python dict cannot hold one): the real loader raises DuplicateKeyError,
+    the model reads the text (`parseText`) into a tree with the key twice and the tree reader rejects it (`dup`)."""
+    from frame.utils.utils import write_yaml
+    try:
+        text = write_yaml(base)
+    except Exception:
+        return
+    bad = dup_key_text(ctx.rng, text)
+    if bad is None:
+        return
+    st, n = nc.load_impl(bad, eps)
+    inp = {"mode": mode, "eps": None if eps is None else [float(eps[0]), float(eps[1])], "text": bad, "defect": "dup-key"}
+    ctx.case("malformed-text", bad, True, sample={"defect": "dup-key", "text": bad[:300], "verdict": st})
+    ctx.count("defect:dup-key" + (":rejected" if st != "ok" else ":accepted"))
+    if st == "ok":
+        ctx.spec_fail("reject:dup-key", inp, {"loaded": nc.render_impl(n, mode)[:400]}, len(bad))
+    reqs.append(f"{mode} loadtext {nc.eps_tokens(eps, mode)} {nc.enc_str(bad)}")
+    todo.append(("loadtext-malformed:dup-key", inp, "err:Assert" if st != "ok" else nc.render_impl(n, mode), len(bad), 1.0))
+
+
 def compare(ctx: Ctx, todo, replies) -> None:
     for (op, inp, impl_line, size, wls), rep in zip(todo, replies):
+        if op.startswith("loadtext-malformed") and rep == "none":
+            ctx.count("dup-key:text-outside-subset")
+            continue
         model = rep if not rep.startswith("err:Assert") else "err:Assert"
         ok, exact, why = nc.cmp_lines(impl_line, model, inp["mode"], TOL, wls)
         if not ok:
@@ -237,7 +287,8 @@ def run(ctx: Ctx) -> None:
     ctx.assumptions = [
         "no assumption about create_stog is left (…_createStog theorems use the C06 model, for which StogPerm is proved); "
         "math.sqrt is a parameter (wire length); the distance / area tolerances in force are the parameters ε / εA",
-        "a Python dict cannot hold a key twice: the model rejects duplicate keys, the generators never produce them",
+        "a Python dict cannot hold a key twice: duplicate keys are injected into the TEXT (stream malformed-text): the "
+        "real loader raises DuplicateKeyError, the text model reads the key twice and the tree reader rejects it (dup)",
         "exact-field arithmetic in the theorems; float stream compared with 1e-9 relative tolerance (wire length: relative "
         "to Σ w·k·max|coordinate|, the scale at which the rounding of the mean is amplified)",
         "rejection is compared as accept / reject + exception class (AssertionError), never by message",
@@ -266,6 +317,13 @@ def run(ctx: Ctx) -> None:
             if eps is not None and eps[1] >= 0.25 and ctx.rng.random() < 0.8:
                 eps = (2.0 ** -30, 2.0 ** -20) if mode == "Q" else None  # keep the overlap defect above the tolerance
             malformed_case(ctx, doc, eps, mode, classes[j % len(classes)], reqs, todo)
+        for _ in range(ctx.n(150, 1500)):
+            doc, eps, mode = bases[ctx.rng.randrange(len(bases))]
+            try:
+                dup_key_case(ctx, doc, eps, mode, reqs, todo)
+            except Exception as e:
+                ctx.spec_fail("operation-raised", {"mode": mode, "eps": None, "text": "", "defect": "dup-key"},
+                              {"exception": repr(e)[:300]}, 1)
     if ctx.tier == "thorough" and ctx.budget <= 1.0:
         # each listed defect class on each of 200 base documents (several positions by repetition)
         cnt = 0
@@ -285,8 +343,20 @@ def run(ctx: Ctx) -> None:
 
 def replay(ctx: Ctx, body: dict) -> None:
     inp = body["input"]
-    doc, eps, mode = nc.read_input(inp)
     reqs, todo = [], []
+    if "text" in inp:
+        eps = None if inp["eps"] is None else (inp["eps"][0], inp["eps"][1])
+        st, n = nc.load_impl(inp["text"], eps)
+        if st == "ok":
+            ctx.spec_fail("reject:dup-key", inp, {"loaded": nc.render_impl(n, inp["mode"])[:400]}, len(inp["text"]))
+        reqs.append(f"{inp['mode']} loadtext {nc.eps_tokens(eps, inp['mode'])} {nc.enc_str(inp['text'])}")
+        todo.append(("loadtext-malformed:dup-key", inp, "err:Assert" if st != "ok" else nc.render_impl(n, inp["mode"]),
+                     len(inp["text"]), 1.0))
+        replies = ctx.model(reqs)
+        if replies:
+            compare(ctx, todo, replies)
+        return
+    doc, eps, mode = nc.read_input(inp)
     st, n = nc.load_impl(doc, eps)
     impl_line = nc.render_impl(n, mode) if st == "ok" else "err:" + n
     reqs.append(f"{mode} load {nc.eps_tokens(eps, mode)} {nc.enc_tree(doc, mode)}")
